@@ -582,6 +582,143 @@ func (s *vC05Sys) Key() string {
 	return sb.String()
 }
 
+// vC05Passthrough: the vector part of a hybrid search IS a search of the underlying vector
+// index with the caller's options. For every vector kind (4 clusters of data, so that the
+// number of probed clusters / the beam width changes the answer) and for EVERY combination
+// of k x nProbes x efSearch x threshold x filter, after each of n adds, after removals and
+// after a flush, the vector-only hybrid answer must be the answer of a direct search on the
+// same vector index object given the same options and the filter's id set.
+func vC05Passthrough(c *vCtx, kind string, maxN int) {
+	cfg := vVecCfg{Kind: kind, Metric: Euclidean, Dim: 2, M: 2, Ef: 4, NList: 4, NBits: 2, Train: 2}
+	if kind == "pq" || kind == "ivfpq" {
+		cfg.M = 1
+	}
+	cfgS := "hybrid passthrough " + cfg.String()
+	vi, err := cfg.New()
+	if err != nil {
+		panic(err)
+	}
+	vFixLevels()
+	h := NewHybridSearchIndex(vi, nil, NewRoaringMetadataIndex())
+	centers := [][]float32{{0, 0}, {8, 0}, {0, 8}, {8, 8}}
+	var hist []string
+	live := map[uint32]string{}
+	judge := func() {
+		var xs []uint32
+		for id, sv := range live {
+			if sv == "x" {
+				xs = append(xs, id)
+			}
+		}
+		sort.Slice(xs, func(i, j int) bool { return xs[i] < xs[j] })
+		for _, q := range [][]float32{{1, 1}, {4, 4}, {7.5, 0.5}} {
+			for _, k := range []int{1, 3, 10} {
+				for _, np := range []int{0, 1, 2, 3, 4, 9} {
+					for _, ef := range []int{0, 1, 64} {
+						for _, thr := range []float32{0, 6.5} {
+							for _, filt := range []bool{false, true} {
+								if np == 0 && (kind == "ivf" || kind == "ivfpq") {
+									continue // unset: the hybrid default (1) and the index default differ by design
+								}
+								if filt && len(xs) == 0 {
+									continue
+								}
+								c.Evaluations++
+								hs := h.NewSearch().WithVector(vCopyVec(q)).WithK(k)
+								ds := vi.NewSearch().WithQuery(vCopyVec(q)).WithK(k)
+								if np != 0 {
+									hs, ds = hs.WithNProbes(np), ds.WithNProbes(np)
+								}
+								if ef != 0 {
+									hs, ds = hs.WithEfSearch(ef), ds.WithEfSearch(ef)
+								}
+								if thr != 0 {
+									hs, ds = hs.WithThreshold(thr), ds.WithThreshold(thr)
+								}
+								if filt {
+									hs, ds = hs.WithMetadata(Eq("s", "x")), ds.WithDocumentIDs(xs...)
+								}
+								desc := fmt.Sprintf("q=%v k=%d nProbes=%d efSearch=%d thr=%v filter=%v", q, k, np, ef, thr, filt)
+								hr, herr := hs.Execute()
+								dr, derr := ds.Execute()
+								if (herr != nil) != (derr != nil) {
+									c.Violation("vector-options-not-passed-through", "error-differs", cfgS, hist, fmt.Sprintf("%s: hybrid err=%v, vector index err=%v", desc, herr, derr))
+									continue
+								}
+								if herr != nil {
+									continue
+								}
+								hsc, dsc := []float64{}, []float64{}
+								for _, r := range hr {
+									hsc = append(hsc, r.Score)
+								}
+								for _, r := range dr {
+									dsc = append(dsc, float64(r.Score))
+								}
+								if len(dsc) == 0 && filt {
+									// permissive corner (see Assumptions): the queried modality is
+									// empty inside a non-empty filter set: empty or the score-1 fallback
+									continue
+								}
+								sort.Float64s(hsc)
+								sort.Float64s(dsc)
+								same := len(hsc) == len(dsc)
+								for i := 0; same && i < len(hsc); i++ {
+									same = vApprox(hsc[i], dsc[i])
+								}
+								if !same {
+									c.Violation("vector-options-not-passed-through", "", cfgS, hist, fmt.Sprintf("%s: hybrid scores %v, the vector index itself answers %v", desc, hsc, dsc))
+								}
+								if len(dsc) > 0 && len(dsc) < len(live) {
+									c.Nontrivial(cfgS + desc + fmt.Sprint(len(live)))
+								}
+							}
+						}
+					}
+				}
+			}
+		}
+		c.NewState(cfgS + strings.Join(hist, ";"))
+	}
+	for i := 0; i < maxN; i++ {
+		if c.Expired() {
+			c.Bound = fmt.Sprintf("passthrough: deadline after %d adds", i)
+			return
+		}
+		ctr := centers[i%4]
+		v := []float32{ctr[0] + float32(i/4%3)*0.5, ctr[1] + float32(i/12)*0.5}
+		sv := "x"
+		if i%3 == 1 {
+			sv = "y"
+		}
+		id := uint32(i + 1)
+		if err := h.AddWithID(id, v, "", map[string]interface{}{"s": sv}); err != nil {
+			c.Violation("add-failed", "passthrough", cfgS, hist, err.Error())
+			return
+		}
+		live[id] = sv
+		hist = append(hist, fmt.Sprintf("AddWithID(%d,%v,s=%s)", id, v, sv))
+		c.Transitions++
+		judge()
+	}
+	for id := uint32(2); int(id) <= maxN; id += 3 {
+		if err := h.Remove(id); err != nil {
+			c.Violation("remove-failed", "passthrough", cfgS, hist, err.Error())
+			return
+		}
+		delete(live, id)
+		hist = append(hist, fmt.Sprintf("Remove(%d)", id))
+		c.Transitions++
+		judge()
+	}
+	h.Flush()
+	hist = append(hist, "Flush")
+	judge()
+	c.Traces++
+	c.Sample(cfgS + ": hybrid vector-only search == direct search of the wrapped index for every option combination")
+	c.Bound = fmt.Sprintf("passthrough: %d adds, every third removed, flush", maxN)
+}
+
 func init() {
 	vRegister(&vCheck{
 		ID: "C05", Level: "model_checking", Engine: "histmc",
@@ -604,9 +741,22 @@ func init() {
 					}})
 				}
 			}
+			pn := 16
+			if tier == "thorough" {
+				pn = 40
+			}
+			for _, kind := range []string{"flat", "hnsw", "ivf", "pq", "ivfpq"} {
+				kind := kind
+				sh = append(sh, vShard{Name: "passthrough/" + kind, Run: func(c *vCtx) { vC05Passthrough(c, kind, pn) }})
+			}
 			return sh
 		},
 		Replay: func(c *vCtx, v *vViolation) bool {
+			if strings.HasPrefix(v.Config, "hybrid passthrough ") {
+				vC05Passthrough(c, vParseVecCfg(strings.TrimPrefix(v.Config, "hybrid passthrough ")).Kind, 40)
+				_, ok := c.viol[v.Sig()]
+				return ok
+			}
 			var cfg vC05Cfg
 			fmt.Sscanf(v.Config, "hybridsearch V=%t T=%t M=%t", &cfg.V, &cfg.T, &cfg.M)
 			vReplayHist(newC05Sys(c, cfg, 3), v.History)
